@@ -23,7 +23,7 @@ import (
 
 type c15Req struct {
 	Method  string      `json:"method"`
-	Key     int         `json:"key"` // 0 cacheable, 1 uncacheable
+	Key     int         `json:"key"` // 0 cacheable, 1 uncacheable, 2 uncacheable for the first answer and cacheable afterwards
 	Tail    string      `json:"tail"`
 	Query   string      `json:"query,omitempty"`
 	Headers [][2]string `json:"headers,omitempty"`
@@ -70,7 +70,7 @@ func genC15(t *rapid.T) c15Scenario {
 	tails := []string{"x", "item/42", "a-b_c.d~e", "sp%20ace", "u%E2%9C%93", "deep/er/path", "x"}
 	queries := []string{"", "a=1", "a=1&b=2", "b=2&a=1", "a=1&a=2", "empty=", "enc=%E2%9C%93%20x", "k", "a=1&&b", "z=%2F%3F"}
 	for i := 0; i < n; i++ {
-		r := c15Req{Key: rapid.IntRange(0, 1).Draw(t, "key")}
+		r := c15Req{Key: rapid.IntRange(0, 2).Draw(t, "key")}
 		r.Method = rapid.SampledFrom([]string{"GET", "GET", "GET", "GET", "HEAD", "POST", "PUT", "PATCH", "DELETE", "OPTIONS"}).Draw(t, "method")
 		r.Tail = rapid.SampledFrom(tails).Draw(t, "tail")
 		r.Query = rapid.SampledFrom(queries).Draw(t, "query")
@@ -136,13 +136,16 @@ func execC15(sc c15Scenario) *vstat.Outcome {
 	}
 	addr := listenAddr(c15Addr)
 	full := genBytes(700, "text", uint32(n))
-	specs := [2]string{fmt.Sprintf("c15-%d-c", n), fmt.Sprintf("c15-%d-u", n)}
+	specs := [3]string{fmt.Sprintf("c15-%d-c", n), fmt.Sprintf("c15-%d-u", n), fmt.Sprintf("c15-%d-l", n)}
 	c15Up.setSpec(specs[0], &respSpec{Status: 200, Headers: [][2]string{{"Cache-Control", "max-age=300"}, {"Content-Type", "text/plain"}, {"X-Up-Header", "u1"}, {"X-Resp-Added", "from-upstream"}}, Body: full, ETag: `"v1"`, ModTime: c15ModTime})
 	c15Up.setSpec(specs[1], &respSpec{Status: 200, Headers: [][2]string{{"Content-Type", "text/plain"}, {"X-Up-Header", "u2"}}, Body: full, ETag: `"v1"`, ModTime: c15ModTime})
+	c15Up.setSpec(specs[2], &respSpec{Status: 200, Headers: [][2]string{{"Cache-Control", "max-age=300"}, {"Content-Type", "text/plain"}, {"X-Up-Header", "u3"}}, Body: full, ETag: `"v1"`, ModTime: c15ModTime,
+		DropFirst: 1, DropFirstNames: []string{"Cache-Control"}})
 	defer func() {
 		c15Up.mu.Lock()
 		delete(c15Up.specs, specs[0])
 		delete(c15Up.specs, specs[1])
+		delete(c15Up.specs, specs[2])
 		c15Up.logs = nil
 		c15Up.mu.Unlock()
 	}()
@@ -332,10 +335,7 @@ func execC15(sc c15Scenario) *vstat.Outcome {
 					out.Violate("C15", "response-headers", "%s: response header %s=%q, expected %q (upstream value then configured values)", what, name, got, want)
 				}
 			}
-			wantUp := "u1"
-			if r.Key == 1 {
-				wantUp = "u2"
-			}
+			wantUp := []string{"u1", "u2", "u3"}[r.Key]
 			if got := resp.Header.Get("X-Up-Header"); got != wantUp {
 				out.Violate("C15", "response-headers", "%s: upstream header X-Up-Header=%q, expected %q", what, got, wantUp)
 			}
